@@ -720,7 +720,9 @@ def plan_export(run, prop, tier):
           dict(profile="crowd", n=2, cap=300, steps=420, seed=s * 100 + 88, window=300, observe=60),    # 297 vertices present at once
           # labels that PRINT alike side by side on one vertex ("ab" and the Str "a b"; values no text denotes): every entry must still be there
           dict(profile="observe", n=4, cap=16, steps=1500, seed=s * 100 + 89, window=6, odd=1),
-          dict(profile="fan", n=16, cap=32, steps=600, seed=s * 100 + 90, window=12, observe=20, odd=1)]
+          dict(profile="fan", n=16, cap=32, steps=600, seed=s * 100 + 90, window=12, observe=20, odd=1),
+          # one path of 140 vertices through ten groups (inspect walks 139 edges deep; three-digit ids in every printer)
+          dict(profile="deepchain", n=1, cap=256, steps=0, seed=s * 100 + 91, window=8)]
     if tier == "thorough":
         op += [dict(profile="observe", n=n, cap=cap, steps=8000, seed=s * 1000 + 800 + i, window=w) for i, (n, cap, w) in enumerate([(1, 12, 8), (3, 32, 14), (4, 64, 24), (8, 128, 40), (16, 64, 60)])]
     e3_drive(run, acc, op, label="E3 observers")
